@@ -44,6 +44,30 @@ theorem assign_std (s : StdCsf) (hex : ∀ e ∈ s.extras, isExtra e = true) (n 
       else n + alignUp s.srkBlob.length 4 + alignUp s.csfCert.length 4 + alignUp sigC.length 4 + alignUp s.imgCert.length 4 + alignUp sigD.length 4, ?_⟩
     simp [StdCsf.list, assignLocs, needsRef, Cmd.setLoc, assignLocs_app_noref _ _ _ hnr, Hab.Spec.insKeyABS, hmm]
 
+theorem refsOf_app_noref (l1 l2 : List CsfCmd) (h : ∀ c ∈ l1, needsRef c.cmd = false) :
+    refsOf (l1 ++ l2) = refsOf l2 := by
+  induction l1 with
+  | nil => rfl
+  | cons a r ih =>
+    have ha := h a (by simp)
+    simp only [List.cons_append, refsOf, ha, Bool.false_eq_true, ↓reduceIte, List.nil_append]
+    exact ih (fun c hc => h c (by simp [hc]))
+
+/-- data references of a standard list, in command order -/
+theorem refsOf_std (s : StdCsf) (hex : ∀ e ∈ s.extras, isExtra e = true) (L : Nat → Nat) (sigC : Bytes)
+    (bd : List (Nat × Nat)) (sigD : Bytes) (enc : Option EncPart) :
+    refsOf (s.list L sigC bd sigD enc) =
+      [(L 1, s.srkBlob.length), (L 2, s.csfCert.length), (L 3, sigC.length)] ++
+      ([(L 4, s.imgCert.length), (L 5, sigD.length)] ++
+       (match enc with
+        | some e => (match e.mac with | some m => [(L 6, m.length)] | none => [])
+        | none => [])) := by
+  have hnr := extras_noref s.extras hex
+  cases enc with
+  | none => simp [StdCsf.list, refsOf, needsRef, Cmd.loc, refsOf_app_noref _ _ hnr, Hab.Spec.insKeyABS]
+  | some e =>
+    cases hm : e.mac <;> simp [StdCsf.list, refsOf, needsRef, Cmd.loc, refsOf_app_noref _ _ hnr, Hab.Spec.insKeyABS, hm]
+
 /-! ### the walk -/
 theorem walk_append (region : Bytes) (hdrLen self csf : Nat) (w : Walk) (l1 l2 : List RCmd) :
     HabRom.walk region hdrLen self csf w (l1 ++ l2) =
